@@ -84,6 +84,55 @@ class Closure:
         self.name = name
 
 
+class Builtin:
+    """the handful of library functions generated programs use, with the
+    documented meaning"""
+
+    def __init__(self, name, fn):
+        self.name = name
+        self.fn = fn
+
+
+def _b_append(c, x):
+    if kind(c) == "list":
+        c.append(x)
+    elif kind(c) == "set":
+        c.add(x)
+    else:
+        raise err()
+    return c
+
+
+def _b_put(m, k, v):
+    if kind(m) != "map":
+        raise err()
+    m.put(k, v)
+    return m
+
+
+def _b_string(x):
+    if x is None:
+        return ""
+    return text(x)
+
+
+def _b_length(x):
+    k = kind(x)
+    if k in ("list", "string"):
+        return len(x)
+    if k == "set":
+        return len(x.items)
+    if k == "map":
+        return len(x.entries)
+    raise err()
+
+
+BUILTINS = {
+    "append": _b_append, "put": _b_put, "string": _b_string,
+    "length": _b_length, "identity": lambda x: x,
+}
+
+
 class Env:
     def __init__(self, parent=None):
         self.vars = {}
@@ -122,7 +171,7 @@ def kind(v):
         return "map"
     if isinstance(v, RObj):
         return "object"
-    if isinstance(v, Closure):
+    if isinstance(v, (Closure, Builtin)):
         return "func"
     if isinstance(v, tuple) and v and v[0] in ("mod", "fmod"):
         raise Unspec("remainder with a negative operand used as operand")
@@ -346,6 +395,8 @@ class Machine:
         self.out = []
         self.fuel = fuel
         self.glob = Env()
+        for name, fn in BUILTINS.items():
+            self.glob.vars[name] = Builtin(name, fn)
 
     def tick(self):
         self.fuel -= 1
@@ -416,6 +467,13 @@ class Machine:
 
     def call(self, fn, args):
         self.tick()
+        if isinstance(fn, Builtin):
+            if any(nm is not None for nm, _ in args):
+                raise Unspec("named argument to a library function")
+            try:
+                return fn.fn(*[v for _, v in args])
+            except TypeError:
+                raise err()
         if not isinstance(fn, Closure):
             raise err()
         call = self.bind_args(fn, args, None)
@@ -589,12 +647,12 @@ class Machine:
             return Closure(n[1], n[2], env)
         if t == "call":
             f = self.ev(n[1], env)
-            if not isinstance(f, Closure):
+            if not isinstance(f, (Closure, Builtin)):
                 raise err()
             return self.call(f, self.eval_args(n[2], env))
         if t == "pipe":
             f = self.ev(n[2], env)
-            if not isinstance(f, Closure):
+            if not isinstance(f, (Closure, Builtin)):
                 raise err()
             args = [(None, self.ev(n[1], env))] + self.eval_args(n[3], env)
             return self.call(f, args)
